@@ -104,7 +104,10 @@ def gen_solve_config(rng, cls, nmax=3, conv=None, kinds=None, allow_periodic=Tru
                     q = dec(av) / (opsdrive.gscale(cfg, a, P) * dend)
                     hi = at(tuple(g)) if high else at(tuple(P))
                     lo = at(tuple(P)) if high else at(tuple(g))
-                    return enc((dec(bv) / 2 + q) * hi + (dec(bv) / 2 - q) * lo)
+                    cv = (dec(bv) / 2 + q) * hi + (dec(bv) / 2 - q) * lo
+                    # on a periodic axis a, b, c are to be ignored: make them INCONSISTENT with the target, so that
+                    # a solver that falls back to the Robin rows there cannot reproduce it
+                    return enc(cv + 1 if is_periodic(a) else cv)
                 bc[s][ckey] = nested(shp, cval)
     return cfg
 
